@@ -11,7 +11,7 @@ CONSTANT Limit          \* the match-set limit (only its neighbourhood matters)
 
 Sections == {"global", "routing", "dns", "group", "node", "subscription"}
 Required == {"global", "routing"}
-KeyClasses == {"string-default", "number-default", "bool-default", "duration-default", "list-default", "string-nodefault", "list-nodefault"}
+KeyClasses == {"string-default", "number-default", "number-nodefault", "bool-default", "duration-default", "list-default", "string-nodefault", "list-nodefault"}
 ProgramKinds == {"port", "domain", "mixed"}
 
 Perturbations ==
@@ -24,6 +24,7 @@ Perturbations ==
   \cup {[op |-> "absent_key", sec |-> "global", kc |-> k, n |-> 0, kind |-> ""] : k \in KeyClasses}
   \cup {[op |-> "set_key", sec |-> "global", kc |-> k, n |-> 0, kind |-> ""] : k \in KeyClasses}
   \cup {[op |-> "wrong_type", sec |-> "global", kc |-> k, n |-> 0, kind |-> ""] : k \in {"number-default", "bool-default", "duration-default"}}
+  \cup {[op |-> o, sec |-> "global", kc |-> k, n |-> 0, kind |-> ""] : o \in {"number_max", "number_over"}, k \in {"number-default", "number-nodefault"}}
   \cup {[op |-> "missing_required_key", sec |-> "group", kc |-> "", n |-> 0, kind |-> ""]}
   \cup {[op |-> "program_size", sec |-> "routing", kc |-> "", n |-> n, kind |-> k] : n \in {Limit - 1, Limit, Limit + 1, 2 * Limit}, k \in ProgramKinds}
 
@@ -43,6 +44,8 @@ Outcome ==
     [] p.op = "absent_key" -> IF p.kc \in {"string-nodefault", "list-nodefault"} THEN "ok-zero" ELSE "ok-default"
     [] p.op = "set_key" -> "ok-value"
     [] p.op = "wrong_type" -> "error"
+    [] p.op = "number_max" -> "ok-value"         \* the largest value the key's field can hold reads back as itself
+    [] p.op = "number_over" -> "error"           \* one more than that is not what the text spells in any field: rejected
     [] p.op = "missing_required_key" -> "error"
     [] p.op = "program_size" -> IF p.n <= Limit THEN "ok" ELSE "error"
 NeverCrash == Outcome \in {"ok", "ok-default", "ok-zero", "ok-value", "error"}
